@@ -53,6 +53,9 @@ def step (ad : Adapter E Q O D R) (enc : Enc Q R Float) (v : Variant) (w : W E Q
       | "FETCH", [id] => fin (handle ad.ops enc v symsOf a (.fetch id.toNat!))
       | "NOW", [id] => fin (handle ad.ops enc v symsOf a (.now id.toNat!))
       | "INFO", [id] => fin (handle ad.ops enc v symsOf a (.info id.toNat!))
+      -- a request whose id segment is not a backtest id at all (`-1`, `abc`, 2^64): no in-process call corresponds to it;
+      -- the model's state does not move and it answers for no section (the harness checks 4xx and an unchanged state)
+      | "RAW", _ => (w, "PARTIAL")
       | _, _ => (w, "bad-op")
   | _ => (w, "bad-op")
 
